@@ -16,6 +16,7 @@ from __future__ import annotations
 import ast
 
 from .. import astutil as A
+from ..alg import Interp, Obj, Poly, Undecided, to_poly
 from .c01 import registry
 
 EXPLANATION = (
@@ -96,6 +97,49 @@ def run(ctx):
                 ctx.holds(r1, f"{CON}::{cname}.__init__: {A.short(t, 60)}", "constraint widths tiled on the leading (batch) axis")
             else:
                 ctx.violated(r1, ci, t, "constraint widths are not tiled (batch, 1)", found=A.short(t.args[1], 60), node=t)
+
+    # ------------------------------------------------------------ R5: parameter-field shape handed to every ParamViewer
+    r5 = ctx.rule("C10.R5", "VIEW: every ParamViewer built by an applier or a combined constraint is told the parameter field is (batch_size, npars) when batched and (npars,) / (1, npars) when not -- npars being the configuration's parameter count, not the number of parameter sets", "VIEW", floor=18)
+    owners = [(c, c.methods.get("__init__")) for _, (b, c) in sorted(reg.items())]
+    owners += [(repo.cls(CON, n), repo.cls(CON, n).methods.get("__init__")) for n in ("gaussian_constraint_combined", "poisson_constraint_combined")]
+    for c, init in owners:
+        if init is None:
+            ctx.unrecognised(r5, c, "__init__", "no constructor")
+            continue
+        ctx.touch(init)
+        for bs in (None, 3):
+            seen = {}
+
+            class _Stop(Exception):
+                pass
+
+            def pv(a, k, seen=seen):
+                seen["shape"] = a[0] if a else k.get("tensor_shape")
+                raise _Stop()
+
+            cfg = Obj("pdfconfig", {"npars": Poly.const(7), "par_order": ["p1", "p2"], "par_map": Obj("PARMAP"), "samples": ["s1"], "channels": ["c1"], "channel_nbins": {"c1": Poly.const(1)}, "auxdata": [Poly.atom("x0")], "auxdata_order": []})
+            env = {"modifiers": [("m1", "t")], "pdfconfig": cfg, "builder_data": {}, "batch_size": None if bs is None else Poly.const(bs), "interpcode": "code0", "pyhf": Obj("pyhf"), "events": Obj("events")}
+            site = f"{c.relpath}::{c.name}.__init__ [batch_size={bs}]"
+            try:
+                Interp(env, {}, {}, cls_name=c.name, externals={"ParamViewer": pv, "param_set": lambda a, k: Obj("parset")}).run(A.strip_docstring(init.node.body))
+            except _Stop:
+                pass
+            except Undecided as e:
+                if "shape" not in seen:
+                    ctx.unrecognised(r5, init, f"ParamViewer shape [batch_size={bs}]", f"constructor not interpretable up to the ParamViewer call: {e}")
+                    continue
+            if "shape" not in seen:
+                ctx.unrecognised(r5, init, f"ParamViewer shape [batch_size={bs}]", "no ParamViewer is constructed")
+                continue
+            try:
+                shp = [str(to_poly(x)) for x in seen["shape"]]
+            except (Undecided, TypeError):
+                shp = [str(seen["shape"])]
+            ok = shp == ["3", "7"] if bs else shp in (["7"], ["1", "7"])
+            if ok:
+                ctx.holds(r5, site, f"parameter field shape {tuple(shp)}")
+            else:
+                ctx.violated(r5, init, f"ParamViewer shape [batch_size={bs}]", "the parameter viewer is built for a parameter field whose shape is not (batch_size, npars) / (npars,): rows of a batch (or parameters beyond the first few) are gathered from the wrong positions", expected="(3, npars=7)" if bs else "(7,) or (1, 7) for npars=7 (2 parameter sets)", found=str(tuple(shp)))
 
     # ------------------------------------------------------------ R2 / R4
     targets = [(c, c.methods["apply"]) for _, (b, c) in sorted(reg.items())]
